@@ -116,6 +116,15 @@ CHECKS.update({
             TRUST_HTTP, '4.9'),
 })
 
+CHECKS.update({
+    'C12': ('exploration',
+            'HTTP-boundary runtime monitor: multi-period definitions created through the real management API, period arithmetic in exact Fractions on the served manifests, every admitted segment fetched and identified by payload hash and walked for decode times',
+            'Hundreds of generated 1..4-period definitions per run x {vod, live} x option vectors x clocks; contiguity, duration sums, live window '
+            'coverage, id uniqueness, per-period retrievability, source-segment identity, zero-based gapless decode times, 404 past the source and '
+            'cross-stream period ownership are decided from responses only.',
+            TRUST_HTTP, '4.12'),
+})
+
 NOT_YET = {}
 
 
